@@ -121,7 +121,8 @@ fn msg_class(m: &str) -> String {
     } else if m.contains("expected to be called") {
         format!("VERIFY{:?}", numbers_in(m))
     } else {
-        m.to_string()
+        // wording is not part of any property (and carries build-specific file paths)
+        "OTHER".into()
     }
 }
 
